@@ -20,7 +20,7 @@ def setup(chk, props):
     chk.prove(props + ["Properties_Code_Reporter.v", "Properties_Code_Cute.v", "Properties_Code_Runner.v"])
     chk.cov["trusted_base"] = TRUSTED_C + [
         "tools/srccode.py + clang JSON AST: read_reporter_results(), reporter_finish_test(), reporter_finish_suite() and the notification functions are translated whole (loops included) into CLite programs on every run; coq/CLite.v (the interpreter that gives them meaning) and the refinement proofs of Lemmas_Code_Reporter.v tie Runner.v's model of them to the code",
-        "Properties_Code_Cute.v: cute_start_test(), cute_finish_test(), cute_failed_to_complete() of src/cute_reporter.c are translated whole into the same program as the base reporter's functions they call and proved: the '#success' line is printed exactly when the counters credited to the test across finish_test show no failure and no exception (Runner.finish_test's clean flag), for every pipe content; printf and the breadcrumb functions are external calls recorded with their arguments",
+        "Properties_Code_Cute.v: cute_start_test(), cute_finish_test(), cute_failed_to_complete() of src/cute_reporter.c are translated whole into the same program as the base reporter's functions they call and proved: the '#success' line is printed exactly when the counters credited to the test across finish_test show no failure and no exception (Runner.finish_test's clean flag), for every pipe content; cute_start_suite() / cute_finish_suite(): counters restart at zero, at the end of the outermost suite every counter is added to its total and the '#ending' line prints those sums; printf and the breadcrumb functions are external calls recorded with their arguments",
         "run_every_test(), run_named_test() (src/runner.c) with has_test(), count_tests() (src/suite.c) are translated whole and run by the extracted interpreter on heaps built from every small suite tree; the order of suite starts, suite fixtures, tests and suite ends is compared with Runner.run_node / run_named (function-level correspondence, not a proof)",
         "likewise run_the_test_code(), run_test_in_the_current_process(), run_test_suite(), run_single_test() of src/runner.c and in_child_process(), die_in(), stop() of src/posix_runner_platform.c (Properties_Code_Runner.v): the order of reset / setup / body / teardown / tally / completion that Runner.child_steps assumes is the order of calls of the translated code; external functions are calls recorded in a trace, answering from streams",
         "axioms: see coverage.print_assumptions"]
